@@ -181,6 +181,38 @@ impl Uint128 {
     { unimplemented!() }
 
     #[verifier::external_body]
+    pub fn checked_rem(self, other: Uint128) -> (r: Result<Uint128, DivideByZeroError>)
+        ensures
+            r is Ok <==> other.0 != 0,
+            r is Ok ==> r->Ok_0.0 == self.0 as int % other.0 as int,
+    { unimplemented!() }
+
+    #[verifier::external_body]
+    pub fn saturating_sub(self, other: Uint128) -> (r: Uint128)
+        ensures r.0 == (if self.0 >= other.0 { self.0 - other.0 } else { 0 }),
+    { unimplemented!() }
+
+    #[verifier::external_body]
+    pub fn saturating_add(self, other: Uint128) -> (r: Uint128)
+        ensures r.0 == (if self.0 + other.0 <= U128_MAX { self.0 + other.0 } else { U128_MAX as int }),
+    { unimplemented!() }
+
+    #[verifier::external_body]
+    pub fn abs_diff(self, other: Uint128) -> (r: Uint128)
+        ensures r.0 == (if self.0 >= other.0 { self.0 - other.0 } else { other.0 - self.0 }),
+    { unimplemented!() }
+
+    #[verifier::external_body]
+    pub fn min(self, other: Uint128) -> (r: Uint128)
+        ensures r.0 == (if self.0 <= other.0 { self.0 } else { other.0 }),
+    { unimplemented!() }
+
+    #[verifier::external_body]
+    pub fn max(self, other: Uint128) -> (r: Uint128)
+        ensures r.0 == (if self.0 >= other.0 { self.0 } else { other.0 }),
+    { unimplemented!() }
+
+    #[verifier::external_body]
     pub fn cmp(&self, other: &Uint128) -> (r: core::cmp::Ordering)
         ensures
             r is Less <==> self.0 < other.0,
@@ -292,6 +324,19 @@ impl core::ops::Div for Uint128 {
     type Output = Uint128;
     #[verifier::external_body]
     fn div(self, rhs: Uint128) -> (r: Uint128)
+        ensures rhs.0 != 0,
+    { unimplemented!() }
+}
+
+impl vstd::std_specs::ops::RemSpecImpl<Uint128> for Uint128 {
+    open spec fn obeys_rem_spec() -> bool { true }
+    open spec fn rem_req(self, rhs: Uint128) -> bool { UINT_OPS_TOTAL() ==> rhs.0 != 0 }
+    open spec fn rem_spec(self, rhs: Uint128) -> Uint128 { Uint128((self.0 as int % rhs.0 as int) as u128) }
+}
+impl core::ops::Rem for Uint128 {
+    type Output = Uint128;
+    #[verifier::external_body]
+    fn rem(self, rhs: Uint128) -> (r: Uint128)
         ensures rhs.0 != 0,
     { unimplemented!() }
 }
